@@ -26,7 +26,7 @@ func init() {
 			"hook writer.awaitBatch.timer only delays the timer goroutine before it takes the partition mutex",
 		},
 		Shards:      16,
-		CaseTimeout: 120 * time.Second,
+		CaseTimeout: 60 * time.Second,
 		Run:         runC07,
 	})
 }
